@@ -151,6 +151,17 @@ theorem c19_version_chain_partial (d0 : Content) (tr : List Step)
   have h := run_inv (d0 := d0) tr (init d0) 0 (inv_init d0) hv (by omega)
   exact ⟨fun ev hev => (h.succ_ok ev hev).1, h.sorted⟩
 
+/-- **One success per version** (what the real-thread contention run observes): among the
+successful writes of any interleaving no two carry the same expected version — of k writers
+released together on version v exactly the first one to take the lock wins.  This is where the
+atomicity of the locked section (`applyLocked`: check, disk write and commit in ONE transition)
+enters; compare `c19_counterexample_split_apply`. -/
+theorem c19_one_success_per_version_partial (d0 : Content) (tr : List Step)
+    (hv : ∀ st ∈ tr, st.versioned = true) (hlen : 2 * tr.length + 2 < u64Max) :
+    (run (init d0) tr).successes.Pairwise (fun a b => a.expected ≠ b.expected) := by
+  have h := run_inv (d0 := d0) tr (init d0) 0 (inv_init d0) hv (by omega)
+  exact expected_distinct _ (fun ev hev => (h.succ_ok ev hev).1) h.sorted
+
 /-- **Disk = last success** ("the file always equals the content of the last successful write"). -/
 theorem c19_disk_is_last_success_partial (d0 : Content) (tr : List Step)
     (hv : ∀ st ∈ tr, st.versioned = true) (hlen : 2 * tr.length + 2 < u64Max) :
@@ -198,6 +209,20 @@ comparison with the disk still catches it; the stale read is essential.) -/
 theorem c19_counterexample_alias_keys :
     ∃ ev ∈ (run (init "v0".toList) aliasTrace).successes,
       ev.client = 0 ∧ ev.base = some "v0".toList ∧ ev.diskBefore = some "B1".toList := by
+  decide
+
+/-- **What the protocol theorems rest on**: if the locked section of `apply_source` were torn into
+"check under the lock — unlock — write — re-lock and commit" (`splitCheck`/`splitWrite`/
+`splitCommit`; NOT the code's behaviour, and not `versioned`), two honest writers released on the
+same version both succeed (1 → 2 and 1 → 3), and the file ends with the content of the EARLIER
+success while the tracked document holds the later one.  Sequentially the torn variant is
+indistinguishable from the atomic one, so only real-thread contention (the barrier run of the
+harness) can tell them apart in the implementation. -/
+theorem c19_counterexample_split_apply :
+    ((run (init "v0".toList) splitTrace).successes.map fun ev => (ev.client, ev.expected, ev.version)) =
+      [(0, 1, 2), (1, 1, 3)] ∧
+    (run (init "v0".toList) splitTrace).disk = some "A".toList ∧
+    ((run (init "v0".toList) splitTrace).successes.getLast?.map (·.content)) = some "B".toList := by
   decide
 
 end TrustVerif.C19
